@@ -1010,6 +1010,9 @@ def run_e2e_shard(prop, spec):
     elif case == "c03":
         v, nt, inc = run(c03_case, backend, spec.get("workers", 2), seed, counters)
         main = "e2e_forgeries_submitted"
+    elif case == "paused-reader":
+        v, nt, inc = run(paused_reader_case, backend, seed, counters, nevents=spec.get("nevents", 160))
+        main = "e2e_paused_reader_events"
     elif case == "c16":
         v, nt, inc = run(c16_case, backend, spec.get("workers", 2), seed, counters)
         main = "e2e_allow_list_decisions"
@@ -2101,5 +2104,57 @@ async def c03_case(backend, workers, seed, counters):
     finally:
         for c in conns:
             await c.close()
+        srv.stop()
+    return viols, nontrivial, inconcl
+
+
+# ---------------------------------------------------------------------------------------------------
+# C02: a client that pauses reading in the middle of a large answer still gets all of it
+# ---------------------------------------------------------------------------------------------------
+async def paused_reader_case(backend, seed, counters, nevents=160, size=100_000, pause=6.0):
+    import websockets
+    from websockets.asyncio.client import connect
+
+    viols, nontrivial, inconcl = [], [], []
+    # send_timeout is not an option of the relay as it is; a relay that grows one is configured to be impatient
+    srv = e2e.Server(backend=backend, workers=1, overrides={"send_timeout": 2})
+    rp = {"mode": "e2e", "e2e": "paused-reader", "backend": backend, "seed": seed}
+    key = ref.key_from_seed("e2e-paused")
+    evs = [ref.make_event(key, kind=1, created_at=T0 + i, tags=[["t", "big"]], content=("%06d" % i) + "x" * size) for i in range(nevents)]
+    srv.seed(evs)
+    srv.start()
+    try:
+        sock = socket.socket()
+        sock.setsockopt(socket.SOL_SOCKET, socket.SO_RCVBUF, 65536)
+        sock.connect(("127.0.0.1", srv.port))
+        ws = await connect(srv.url, sock=sock, max_size=None, max_queue=2, compression=None, ping_interval=None, close_timeout=2)
+        await ws.send(json.dumps(["REQ", "big", {"kinds": [1], "#t": ["big"], "limit": nevents}]))
+        await asyncio.sleep(pause)  # the peer does not read: the kernel buffers fill, the relay's writes have to wait
+        got, eose = [], False
+        t0 = time.time()
+        try:
+            while time.time() - t0 < 120:
+                msg = await asyncio.wait_for(ws.recv(), 60)
+                m = json.loads(msg)
+                if m[:2] == ["EOSE", "big"]:
+                    eose = True
+                    break
+                if m[:2] == ["EVENT", "big"]:
+                    got.append(m[2]["id"])
+        except (asyncio.TimeoutError, websockets.exceptions.ConnectionClosed) as e:
+            inconcl.append("e2e paused reader: the answer ended without EOSE (%r) after %d events" % (e, len(got)))
+        await ws.close()
+        bump(counters, "e2e_paused_reader_runs")
+        bump(counters, "e2e_paused_reader_events", len(got))
+        nontrivial.append(h(["e2e-paused", backend, nevents]))
+        if eose:
+            missing = [e["id"] for e in evs if e["id"] not in got]
+            dup = len(got) - len(set(got))
+            if missing:
+                viols.append({"key": "e2e/%s/missing/paused-reader" % backend,
+                              "msg": "[e2e %s] a client asked for %d stored events (%d MB), did not read for %.0f s and then read on: %d of them never arrived before EOSE" % (backend, nevents, nevents * size // 1000000, pause, len(missing)), "replay": rp})
+            if dup:
+                viols.append({"key": "e2e/%s/duplicated/paused-reader" % backend, "msg": "[e2e %s] %d stored events arrived twice for one filter" % (backend, dup), "replay": rp})
+    finally:
         srv.stop()
     return viols, nontrivial, inconcl
